@@ -102,7 +102,7 @@ fn place(rng: &mut Rng, v: &CelValue, binds: &mut Binds, force_var: Option<bool>
 
 pub fn run(ctx: &mut Ctx) {
     // ---- list literals and indexing ------------------------------------------------------------
-    let n = ctx.n(40_000, 400_000);
+    let n = ctx.n(25_000, 400_000);
     ctx.stage("lists", n, true, |_idx, rng, rep| {
         let len = rng.below(9);
         let items: Vec<CelValue> = (0..len).map(|_| elem(rng, 2)).collect();
@@ -199,7 +199,7 @@ pub fn run(ctx: &mut Ctx) {
     });
 
     // ---- maps: duplicates, access, membership ----------------------------------------------------
-    let nm = ctx.n(40_000, 400_000);
+    let nm = ctx.n(25_000, 400_000);
     ctx.stage("maps", nm, true, |_idx, rng, rep| {
         const KEYS: [&str; 8] = ["a", "b", "c", "size", "map", "é", "", "has"];
         let nent = rng.below(7);
